@@ -30,6 +30,7 @@ func runC06(c *Check, tier string) {
 	useFamily(c, "R06k", famStore, 20)
 	// every restored file gets its own bytes: a stream is not shared between concurrent readers
 	ruleNoSharedReaderFromSingleflight(c, "R06m")
+	ruleDeferredResultNotClobbered(c, "R06n", "output", "output/handlers", "caching", "caching/backends", "execution", "loading", "locking")
 	// a restore that swallows its download errors reports success with files missing
 	shareRule(c, "R06j", "an error channel whose sends never block (select/default) has room for at least one error (same obligation as R04d)", 1, "R04d", func(sub *Check) { ruleR04d(sub) }, func(k string) bool { return strings.Contains(k, "output/handlers") })
 }
